@@ -9,6 +9,7 @@ import (
 	"math/rand"
 	"net"
 	"net/http"
+	"net/netip"
 	"net/url"
 	"strconv"
 	"sync"
@@ -360,9 +361,11 @@ func DNSCaching(ttl time.Duration) func(*Attacker) {
 					return nil, err
 				}
 
-				if host == "" {
-					// No host means the local system (as in http://:80):
-					// nothing to look up, the dialer knows what to do.
+				if _, err := netip.ParseAddr(host); host == "" || err == nil {
+					// No host means the local system (as in http://:80), and
+					// an IP address is itself: nothing to look up, the dialer
+					// knows what to do (a lookup returns an IPv6 address
+					// without its zone).
 					return dial(ctx, network, addr)
 				}
 
